@@ -11,6 +11,10 @@ def _hs():
     hs = []
     for nm, tier, txt, kind, cname, tup in gen_c11.harnesses("thorough"):
         hs.append(H("gen_c11::" + nm, tier=tier, desc=txt + " (universe %s: targets %s)" % (cname, ", ".join("'%s'" % t for t in gen_c11.CONFIGS[cname]["T"])), sym=SYM))
+    hs.append(H("c11::c11_dup_canonical", kind="finding", role="targets_stale_max_level",
+                desc="a filter in which a duplicate key replaced a directive equals (PartialEq, max_level_hint) the filter built from its effective directives "
+                     "- what parse(display(T)) == T needs; recorded finding: DirectiveSet::add never lowers max_level ('a=trace,a=error' re-parses to a different filter)",
+                sym="both levels of the duplicate key"))
     hs.append(H("c11::c11_reach", kind="reach", desc="vacuity twin"))
     return hs
 
@@ -40,7 +44,7 @@ SPEC = {
     "manifest": {
         "text": "Bounded proof: for every ordered tuple of directive keys within the bound (one CBMC query each) and, inside each query, every LevelFilter per directive, every query target of the literal universe, every level and kind, the real Targets::would_enable, Targets::default_level, Subscribe::enabled / Filter::enabled (asked with a real Context through the real Layered stack), register_callsite / callsite_enabled and max_level_hint are compared with a longest-matching-prefix oracle whose prefix table is computed outside the code under test. "
                 "This decides exactly the input-dependent part the tests leave open: ordering ties, prefix collisions ('a' / 'ab' / 'a::b'), the empty target versus the default, and replace-on-duplicate in every insertion order.",
-        "note": "EnvFilter (regex) and the Display/FromStr round trip are outside the claim; would_enable == filtering is shown at k = 1 for every key and at k = 2 for the listed tuples (the metadata route costs ~3 min per tuple).",
+        "note": "Known finding targets_stale_max_level (listed in KNOWN_FINDINGS.txt, excluded by role): after a duplicate key lowers a directive's level, max_level stays at the old maximum, so the filter differs from its own re-parse in PartialEq and max_level_hint (not in what it enables). EnvFilter (regex) and the Display/FromStr round trip are outside the claim; would_enable == filtering is shown at k = 1 for every key and at k = 2 for the listed tuples (the metadata route costs ~3 min per tuple).",
         "technique": "skeleton-split bounded model checking of the compiled targets.rs / directive.rs (Kani/CBMC), generated harness per directive-key tuple, longest-prefix oracle",
         "design_ref": "DESIGN.md §6 C11",
     },
